@@ -59,14 +59,14 @@ const setupExample = crsConfHeader + "SecAction \\\n    \"id:900990,\\\n    phas
 // miniCRS is a small valid CRS tree (paths relative to the root).
 func miniCRS() core.Tree {
 	return core.Tree{
-		"regex-assembly/toolchain.yaml":  c01Yaml,
-		"regex-assembly/123456.ra":       "##! Please refer to the documentation at\n##! https://coreruleset.org/docs/development/regex_assembly/.\n\nfoo\nbar\n",
-		"regex-assembly/123457-chain1.ra": "   baz\nqux\n\n",
-		"regex-assembly/include/inc.ra":  "xa\n  yb\n",
-		"regex-assembly/exclude/ex.ra":   "yb\n",
-		"regex-assembly/sub/111113.ra":   "nested\n",
-		"rules/REQUEST-123-TEST.conf":    rulesFile(ruleSpec{ID: "123456", Regex: "OLD"}, ruleSpec{ID: "123457", Regex: "keep", Chain: []string{"OLDCHAIN"}}),
-		"rules/REQUEST-111-NEST.conf":    rulesFile(ruleSpec{ID: "111113", Regex: "OLDNEST"}),
+		"regex-assembly/toolchain.yaml":                       c01Yaml,
+		"regex-assembly/123456.ra":                            "##! Please refer to the documentation at\n##! https://coreruleset.org/docs/development/regex_assembly/.\n\nfoo\nbar\n",
+		"regex-assembly/123457-chain1.ra":                     "   baz\nqux\n\n",
+		"regex-assembly/include/inc.ra":                       "xa\n  yb\n",
+		"regex-assembly/exclude/ex.ra":                        "yb\n",
+		"regex-assembly/sub/111113.ra":                        "nested\n",
+		"rules/REQUEST-123-TEST.conf":                         rulesFile(ruleSpec{ID: "123456", Regex: "OLD"}, ruleSpec{ID: "123457", Regex: "keep", Chain: []string{"OLDCHAIN"}}),
+		"rules/REQUEST-111-NEST.conf":                         rulesFile(ruleSpec{ID: "111113", Regex: "OLDNEST"}),
 		"tests/regression/tests/REQUEST-123-TEST/123456.yaml": testYaml,
 		"tests/regression/tests/REQUEST-123-TEST/123457.yml":  strings.Replace(testYaml, "123456", "123457", 1),
 		"crs-setup.conf.example":                              setupExample,
